@@ -4,6 +4,7 @@
 -/
 import Fx.Eval
 import Fx.Lemmas.Advance
+import Fx.Lemmas.Leaves
 namespace Fx.C08
 open Fx
 
@@ -27,5 +28,22 @@ theorem C08_read_variable_bytes_view (m : Option Nat) (c : Cur) (v : Val) (c' : 
     refine ⟨n, by simpa using hv, ?_⟩
     simp at hl
     omega
+
+/-- **Every opaque leaf of every successfully decoded value is a view of the input**: for ALL byte strings, ALL plans,
+    every type and fuel, each `Bytes` inside the result starts at an absolute offset inside the input view,
+    ends inside it, and holds exactly the input's bytes at that offset (`Val.LeavesIn`). -/
+theorem C08_views (a : Ast) (p : Plans) (fuel : Nat) (name : String) (c : Cur) (v : Val) (c' : Cur)
+    (h : evalImpl a p fuel name c = .ok v c') : v.LeavesIn c :=
+  (eval_leaves a p fuel).1 name c v c' h
+
+/-- what `LeavesIn` says for one leaf -/
+theorem C08_leaf_meaning (c : Cur) (off : Nat) (bs : List Byte) :
+    (Val.bytes off bs).LeavesIn c ↔
+      (c.off ≤ off ∧ off + bs.length ≤ c.off + c.remaining ∧ bs = (c.data.drop (off - c.off)).take bs.length) := by
+  simp [Val.LeavesIn, leafIn]
+
+/-- non-vacuity: a struct holding a counted opaque, decoded from a view that starts at offset 7 -/
+example : (Val.struct "s" ["o"] (.cons (.bytes 11 [1, 2]) .nil)).LeavesIn ⟨7, be32 2 ++ [1, 2, 0, 0], []⟩ := by
+  simp [Val.LeavesIn, Vals.LeavesIn, leafIn, Cur.remaining, be32]
 
 end Fx.C08
